@@ -36,8 +36,8 @@ ASSUMPTIONS = [
     "np.random.randint / numpy.random.choice replaced by a fresh symbolic outcome constrained by the call's contract (p[outcome] > 0)",
     "operation order: compile() is exercised on fixed circuits only; that sequence() is a topological order of an arbitrary DAG is C12 (not claimed)",
 ]
-BOUNDS = {"quick": {"stabilizer leg": "n_photon + n_emitter <= 2 (+ two budgeted three-register placements)", "dm leg": "n <= 2", "cross tie": "n <= 2"},
-          "thorough": {"stabilizer leg": "n_photon + n_emitter <= 3", "dm leg": "n <= 3", "cross tie": "n <= 3"}}
+BOUNDS = {"quick": {"stabilizer leg": "n_photon + n_emitter <= 2 (+ two budgeted three-register placements)", "dm leg": "n <= 2", "cross tie": "n <= 2", "row product used by every measurement (row_sum)": "two symbolic commuting rows, n = 4, 5"},
+          "thorough": {"stabilizer leg": "n_photon + n_emitter <= 3", "dm leg": "n <= 3", "cross tie": "n <= 3", "row product used by every measurement (row_sum)": "n = 4, 5, 6, 8"}}
 OUTSIDE = "parameterised rotations; circuits as symbolic objects (programs quantifier rests on the induction); noise (C06)"
 
 ONE_Q = {"Hadamard": "H", "Phase": "P", "PhaseDagger": "P_dag", "SigmaX": "X", "SigmaY": "Y", "SigmaZ": "Z", "Identity": "I"}
@@ -541,6 +541,9 @@ def plan(tier):
                     jobs.append((StabCompileOne(op=op, n_p=n_p, n_e=n_e, regs=[list(a), list(b)], det=det, c=1), {}))
     jobs.append((RegToIndex(), {}))
     jobs.append((OracleTie(), {}))
+    from props.c05 import RowSum
+    for n in ([4, 5] if q else [4, 5, 6, 8]):
+        jobs.append((RowSum(n=n, commuting=True), {}))
     if q:
         # budgeted look at three registers (complete in the thorough tier): the placements where photon and emitter
         # indices differ most
